@@ -465,9 +465,42 @@ impl OcflStore for FsOcflStore {
         let root_inventory_bytes = fs::read(&root_inventory_path)?;
         let root_sidecar_bytes = fs::read(&root_sidecar_path)?;
 
+        // An upgrade additionally replaces the object's version declaration
+        let new_spec_version = if inventory.type_declaration != existing_inventory.type_declaration {
+            Some(inventory.spec_version().unwrap())
+        } else {
+            None
+        };
+        let old_namastes = match new_spec_version {
+            Some(_) => find_files(&object_root, OBJECT_NAMASTE_FILE_PREFIX)?,
+            None => Vec::new(),
+        };
+
         fs::rename(version_path, &destination)?;
 
-        if let Err(e) = self.copy_inventory_files(inventory, &destination, &object_root) {
+        let install = || -> Result<()> {
+            self.copy_inventory_files(inventory, &destination, &object_root)?;
+
+            if let Some(spec_version) = new_spec_version {
+                write_object_namaste(&object_root, spec_version)?;
+                for old in &old_namastes {
+                    util::remove_file_ignore_not_found(&object_root.join(old))?;
+                }
+            }
+
+            Ok(())
+        };
+
+        if let Err(e) = install() {
+            if let Some(spec_version) = new_spec_version {
+                if let Err(e) = util::remove_file_ignore_not_found(paths::object_namaste_path(
+                    &object_root,
+                    spec_version,
+                )) {
+                    error!("Failed to remove the new version declaration of object {} at {}: {}. Manual intervention may be required.",
+                           inventory.id, object_root.to_string_lossy(), e);
+                }
+            }
             if let Err(e) = fs::write(&root_inventory_path, &root_inventory_bytes)
                 .and_then(|_| fs::write(&root_sidecar_path, &root_sidecar_bytes))
             {
@@ -486,15 +519,6 @@ impl OcflStore for FsOcflStore {
         }
 
         inventory.storage_path = object_root.to_string_lossy().into();
-
-        if inventory.type_declaration != existing_inventory.type_declaration {
-            // This is a version upgrade
-            let old_namastes = find_files(&object_root, OBJECT_NAMASTE_FILE_PREFIX)?;
-            write_object_namaste(&object_root, inventory.spec_version().unwrap())?;
-            for old in old_namastes {
-                util::remove_file_ignore_not_found(&object_root.join(old))?;
-            }
-        }
 
         Ok(())
     }
